@@ -176,7 +176,10 @@ def gen_script(rng, solvers=L.SOLVERS, nops=(3, 9), p_mid=0.5, allow_modes=False
             elif m == "exit":
                 ops.append(dict(op="RequestExit"))
             elif m == "emon" and monitors:
-                ops.append(dict(op="SetEvalMonitor", new=rng.random() < 0.3))
+                o = dict(op="SetEvalMonitor", new=rng.random() < 0.3)
+                if any(q["op"] == "SetEvalMonitor" for q in ops) and rng.random() < 0.35:
+                    o["same"] = True      # hand the solver the monitor it is already using (e.g. Solve(EvaluationMonitor=m) a second time)
+                ops.append(o)
             elif m == "obj":
                 ops.append(dict(op="SetObjective", cost=gen_cost(rng, ndim) if not vector else dict(kind="vector", a=[grid(rng, -2, 2) for _ in range(ndim)])))
     # DE settings given as sticky keywords of the first Step/Solve instead of attributes (boundary values 0 and 1 included)
